@@ -759,7 +759,9 @@ class FileReport:  # pylint: disable=too-many-instance-attributes
                     ) != identifier:
                         identifiers.add(plus_identifier)
                     # Bad license
-                    if not identifiers.intersection(project.license_map):
+                    if not identifiers.intersection(
+                        project.license_map
+                    ) and not _LICENSEREF_PATTERN.match(identifier):
                         report.bad_licenses.add(identifier)
                     # Missing license
                     if not identifiers.intersection(project.licenses):
